@@ -90,6 +90,7 @@ fn parse_act(t: &[&str]) -> Option<SAct>
         ["revoke", k] => SAct::Revoke(parse_idx('t', k)?),
         ["run", s] => SAct::Run(parse_ref(s)?),
         ["flush"] => SAct::Flush,
+        ["drun", s] => SAct::Direct(Box::new(SAct::Run(parse_ref(s)?))),
         ["dsysevent", s, ty, pid] => SAct::Direct(Box::new(SAct::SysEvent(parse_ref(s)?, num(ty)?, num(pid)?))),
         ["dbroadcast", ty, pid] => SAct::Direct(Box::new(SAct::Broadcast(num(ty)?, num(pid)?))),
         ["dentevent", e, ty, pid] => SAct::Direct(Box::new(SAct::EntityEvent(parse_ref(e)?, num(ty)?, num(pid)?))),
